@@ -10,6 +10,7 @@ CONFIGS = [{'SIMUCELL3D_VERIF_DYNAMIC_MODEL_INDEX': 0}]
 
 
 def build(reg, cfg=None):
+    reg.plain_views = True
     reg.add(M.add_node_contract(PROP))
     reg.add(M.get_edge_contract(PROP))
     reg.add(M.delete_face_contract(PROP))
